@@ -112,11 +112,11 @@ class GCWorld:
         return self.c.obj(self.cur).f['size']
 
 
-def mk_gc(c, fresh_gc=False):
+def mk_gc(c, fresh_gc=False, file=None):
     """fresh_gc: the state GC.__init__ leaves (empty maps, no pack position)"""
     w = GCWorld()
     w.c = c
-    w.file = prims.new_file(c, 'packfile', mode='rb')
+    w.file = file if file is not None else prims.new_file(c, 'packfile', mode='rb')
     fo = c.obj(w.file).f
     c.assume(z3.And(fo['size'] >= 4, fo['size'] < M.MAXPOS, z3.Not(fo['dirty'])))
     w.A, w.n = fo['arr'], fo['size']
@@ -557,12 +557,13 @@ def rlen(w, p):
     return 42 + z3.If(w.R.plen(p) == 0, 8, w.R.plen(p))
 
 
-def later_clauses(w, lt, lo=None):
-    """tiling of [lo, eof) by transactions and their data records (lo defaults to the pack position)"""
+def later_clauses(w, lt, lo=None, eof=None):
+    """tiling of [lo, eof) by transactions and their data records (lo defaults to the pack position,
+    eof to the end of the region the GC was given)"""
     sel = z3.Select
     T, isB, rec, txnOf = lt.T, lt.isB, lt.rec, lt.txnOf
     lo = w.pp if lo is None else lo
-    eof = w.eof.t
+    eof = w.eof.t if eof is None else eof
 
     def boundary(b):
         nb = b + T.tl(b) + 8
@@ -576,7 +577,7 @@ def later_clauses(w, lt, lo=None):
     def record(p):
         b = sel(txnOf, p)
         nxt = p + rlen(w, p)
-        return z3.Implies(z3.And(sel(rec, p), p >= lo), z3.And(
+        return z3.Implies(z3.And(sel(rec, p), p >= lo, p < eof), z3.And(
             sel(w.vrec, p), sel(isB, b), b >= lo, b < eof, p >= b + T.hdrlen(b), nxt <= b + T.tl(b),
             z3.Or(nxt == b + T.tl(b), z3.And(sel(rec, nxt), sel(txnOf, nxt) == b))))
     return [
@@ -584,9 +585,9 @@ def later_clauses(w, lt, lo=None):
         ('tiling.transactions', All(['bpos'], boundary)),
         ('tiling.records', All(['pos'], record)),
         ('tiling.records-do-not-overlap', All(['pos', 'pos'], lambda p, q: z3.Implies(
-            z3.And(sel(rec, p), sel(rec, q), p >= lo, p < q), p + rlen(w, p) <= q))),
+            z3.And(sel(rec, p), sel(rec, q), p >= lo, p < q, q < eof), p + rlen(w, p) <= q))),
         ('tiling.records-lie-inside-transactions', All(['pos', 'bpos'], lambda p, b: z3.Implies(
-            z3.And(sel(rec, p), p >= lo, sel(isB, b), b >= lo),
+            z3.And(sel(rec, p), p >= lo, p < eof, sel(isB, b), b >= lo, b <= eof),
             z3.And(z3.Implies(p < b, p + rlen(w, p) + 8 <= b),
                    z3.Implies(z3.And(b <= p, b < eof), b + T.hdrlen(b) <= p))))),
         ('tiling.transactions-do-not-overlap', All(['bpos', 'bpos'], lambda b, b2: z3.Implies(
@@ -760,7 +761,7 @@ class FindReachableFromFuture(GCSpec):
                 ('kept-revisions-are-records', All(['oid'], lambda o: z3.Implies(
                     sel(dom, o), z3.And(sel(w.vrec, sel(val, o)), o >= 0, o < 2 ** 64)))),
                 ('keep-back', All(['pos'], lambda p: z3.Implies(
-                    z3.And(sel(lt.rec, p), p >= w.pp), self.handled(cc, w, p)))),
+                    z3.And(sel(lt.rec, p), p >= w.pp, p < w.eof.t), self.handled(cc, w, p)))),
                 ('keep-closed.or-pending', All(['oid', 'idx'], lambda o, i: z3.Implies(
                     sel(dom, o), z3.Or(pending(sel(val, o)), closed(w, sel(val, o), dom)(i))))),
                 ('keep-closed.extra.or-pending', All(['oid', 'pos', 'idx'], lambda o, p, i: z3.Implies(
@@ -795,7 +796,7 @@ class FindReachableFromFuture(GCSpec):
                 ('kept-revisions-are-records', All(['oid'], lambda o: z3.Implies(
                     sel(dom, o), z3.And(sel(w.vrec, sel(val, o)), o >= 0, o < 2 ** 64)))),
                 ('keep-back', All(['pos'], lambda p: z3.Implies(
-                    z3.And(sel(lt.rec, p), p >= w.pp), self.handled(cc, w, p)))),
+                    z3.And(sel(lt.rec, p), p >= w.pp, p < w.eof.t), self.handled(cc, w, p)))),
                 ('keep-closed', All(['oid', 'idx'], lambda o, i: z3.Implies(
                     sel(dom, o), closed(w, sel(val, o), dom)(i)))),
                 ('keep-closed.extra', All(['oid', 'pos', 'idx'], lambda o, p, i: z3.Implies(
@@ -836,6 +837,19 @@ def cur_clauses(w, lt, dom, val, upto):
     ]
 
 
+def bpi_requires(c, w):
+    T = w.later.T
+    T.link(c, w.eof.t)
+    return gc_ri(c, w)[:2] + later_clauses(w, w.later, lo=z3.IntVal(4)) + [
+        ('not-empty', w.eof.t > 4),
+        ('tail-status-ascii', z3.Implies(w.n - w.eof.t >= 23, z3.And(T.status(w.eof.t) >= 0,
+                                                                     T.status(w.eof.t) < 128)))]
+
+
+def find_reachable_requires(c, w):
+    return bpi_requires(c, w) + gc_ri(c, w)[2:]
+
+
 class BuildPackIndex(GCSpec):
     """packpos := the first transaction boundary whose tid is later than the pack time (or eof);
     oid2curpos := for every object its last record below packpos unless that is an un-creation"""
@@ -853,13 +867,7 @@ class BuildPackIndex(GCSpec):
         return {'self': w.self}
 
     def requires(self, c, E):
-        w = self.w(c, E)
-        T = w.later.T
-        T.link(c, w.eof.t)
-        return gc_ri(c, w)[:2] + later_clauses(w, w.later, lo=z3.IntVal(4)) + [
-            ('not-empty', w.eof.t > 4),
-            ('tail-status-ascii', z3.Implies(w.n - w.eof.t >= 23, z3.And(T.status(w.eof.t) >= 0,
-                                                                         T.status(w.eof.t) < 128)))]
+        return bpi_requires(c, self.w(c, E))
 
     def modifies(self, c, E):
         w = self.w(c, E)
@@ -991,8 +999,7 @@ class FindReachable(GCSpec):
         return {'self': w.self}
 
     def requires(self, c, E):
-        w = self.w(c, E)
-        return BuildPackIndex.requires(self, c, E) + gc_ri(c, w)[2:]
+        return find_reachable_requires(c, self.w(c, E))
 
     def modifies(self, c, E):
         w = self.w(c, E)
@@ -1000,6 +1007,22 @@ class FindReachable(GCSpec):
                 (w.self.id, 'packpos'), (w.self.id, 'ltid'), (w.self.id, 'oid2curpos'),
                 (w.self.id, 'reachable'), (w.reachable.id, 'dom'), (w.reachable.id, 'val'),
                 (w.reach_ex.id, 'mem')}
+
+    def havoc(self, c, E, outcome=None):
+        w = self.w(c, E)
+        BuildPackIndex.havoc(self, c, E)
+        FindReachableFromFuture.havoc(self, c, E)
+        me = c.obj(w.self).f
+        g = me['gc']
+        on = g.conc() if hasattr(g, 'conc') else None
+        if on is None:
+            raise Unsupported('findReachable with a symbolic gc flag at a call site')
+        if outcome is not None and outcome.label == 'done':
+            if on:
+                me['reachable'] = w.reachable
+                me.pop('oid2curpos', None)
+            else:
+                me['reachable'] = w.cur
 
     def outcomes(self, c, E):
         w = self.w(c, E)
@@ -1029,7 +1052,7 @@ class FindReachable(GCSpec):
                 ('kept-revisions-are-records', All(['oid'], lambda o: z3.Implies(
                     sel(dom, o), sel(w.vrec, sel(val, o))))),
                 ('keep-back', All(['pos'], lambda p: z3.Implies(
-                    z3.And(sel(lt.rec, p), p >= w.pp), h(self, cc, w, p)))),
+                    z3.And(sel(lt.rec, p), p >= w.pp, p < w.eof.t), h(self, cc, w, p)))),
                 ('keep-closed', All(['oid', 'idx'], lambda o, i: z3.Implies(
                     sel(dom, o), closed(w, sel(val, o), dom)(i)))),
                 ('keep-closed.extra', All(['oid', 'pos', 'idx'], lambda o, p, i: z3.Implies(
